@@ -508,6 +508,13 @@ def c14_jobs(tier):
         des("priorityqueue", "history", b, dl, procs=3, prios="0,1,1", budget=4, pq=2,
             ops="recon,recoff,pqput0,pqput1,pqget,pqcancel,hold0,hold1,tadd1,int0,int1,stop0,exit",
             script0="recon,pqput0,pqput1,pqcancel", script1="hold1,pqget,hold1,recoff", script2="hold1,pqget"),
+        # the library's own arithmetic on histories under the experiment's floating-point trap mask
+        des("resource-fptrap", "history", 2, dl, procs=3, prios="0,1,2", budget=4, res=1, fptrap=1,
+            ops="recon,recoff,racq0,rrel0,rpre0,hold0,hold1,int0,stop0,exit",
+            script0="recon,racq0,hold1,rrel0", script1="hold1,racq0,hold1,recoff", script2="hold2,rpre0,hold1"),
+        des("buffer-fptrap", "history", 2, dl, procs=3, prios="0,1,1", budget=4, buf=3, fptrap=1,
+            ops="recon,recoff,bput1,bput2,bget1,bget2,hold0,hold1,int0,stop0,exit",
+            script0="recon,bput2,hold1,bput2", script1="bget1,hold1,bget2,recoff", script2="hold1,bget2"),
     ]
 
 
@@ -614,9 +621,14 @@ def c17_jobs(tier):
                     crash_is_violation=True)
     if tier == "quick":
         return [j("plain-len5", mode="plain", maxlen=5), j("offset-len5", mode="offset", maxlen=5),
-                j("weighted-len3", mode="weighted", maxlen=3)]
+                j("weighted-len3", mode="weighted", maxlen=3),
+                dict(j("plain-len4-fptrap", mode="plain", maxlen=4, fptrap=1), cfg="rel"),
+                dict(j("weighted-len3-fptrap", mode="weighted", maxlen=3, fptrap=1), cfg="rel")]
     return [j("plain-len7", mode="plain", maxlen=7), j("offset-len7", mode="offset", maxlen=7),
-            j("weighted-len4", mode="weighted", maxlen=4)]
+            j("weighted-len4", mode="weighted", maxlen=4),
+            dict(j("plain-len6-fptrap", mode="plain", maxlen=6, fptrap=1), cfg="rel"),
+            dict(j("offset-len5-fptrap", mode="offset", maxlen=5, fptrap=1), cfg="rel"),
+            dict(j("weighted-len4-fptrap", mode="weighted", maxlen=4, fptrap=1), cfg="rel")]
 
 
 spec("C17", jobs=c17_jobs,
@@ -642,9 +654,14 @@ def c18_jobs(tier):
                     crash_is_violation=True, recycle=300)
     if tier == "quick":
         return [j("small-len6", mode="small", maxlen=6), j("perm6", mode="perm", maxlen=6), j("big", mode="big"),
-                j("ts-len4", mode="ts", maxlen=4)]
+                j("ts-len4", mode="ts", maxlen=4),
+                dict(j("small-len5-fptrap", mode="small", maxlen=5, fptrap=1), cfg="rel"),
+                dict(j("ts-len4-fptrap", mode="ts", maxlen=4, fptrap=1), cfg="rel")]
     return [j("small-len8", mode="small", maxlen=8), j("perm8", mode="perm", maxlen=8), j("big", mode="big"),
-            j("ts-len6", mode="ts", maxlen=6)]
+            j("ts-len6", mode="ts", maxlen=6),
+            dict(j("small-len7-fptrap", mode="small", maxlen=7, fptrap=1), cfg="rel"),
+            dict(j("big-fptrap", mode="big", fptrap=1), cfg="rel"),
+            dict(j("ts-len5-fptrap", mode="ts", maxlen=5, fptrap=1), cfg="rel")]
 
 
 spec("C18", jobs=c18_jobs,
@@ -710,8 +727,8 @@ def c15_jobs(tier):
             d["workers"] = workers
         return d
     jobs = [j("identity", mode="identity"), j("identity-O2", "rel", mode="identity"),
-            j("history", mode="history", hist=3 if tier == "quick" else 4),
-            j("history-O2", "rel", mode="history", hist=3),
+            j("history", mode="history", hist=2 if tier == "quick" else 3),
+            j("history-O2", "rel", mode="history", hist=2 if tier == "quick" else 3),
             j("threads-2", bmax=2, mode="threads", nthreads=2),
             j("threads-3", bmax=1 if tier == "quick" else 2, mode="threads", nthreads=3),
             j("tsan-free-running", "tsan", workers=1, mode="free")]
@@ -721,10 +738,13 @@ def c15_jobs(tier):
 spec("C15", jobs=c15_jobs,
      technique="exhaustive comparison with an independent reference generator over a seed set; exhaustive enumeration of prior call histories; preemption-bounded exhaustive schedule search of concurrent samplers under a serialising scheduler, plus a free-running ThreadSanitizer pass",
      level_text="(a) For all seeds in [0, 2^16), all 64 single-bit seeds and boundary seeds the first 64 raw outputs are compared bit for "
-                "bit with an independent sfc64 + splitmix64 implementation (20 discarded outputs). (b) Every prior history of up to 3-4 "
-                "calls over {flip x1/x7/x64, gamma(0.5), gamma(2.5), geometric, normal, exponential, alias, loaded dice, terminate, "
-                "initialize(other)} is followed by initialize(seed) and a probe that calls every sampling function; the probe's bit "
-                "patterns must equal those on a thread that never used the generator. (c) Two and three threads with different seeds "
+                "bit with an independent sfc64 + splitmix64 implementation (20 discarded outputs). (b) Every prior history of up to 2-3 "
+                "calls over 19 operations {flip x1/x7/x64, gamma(0.5/1/2.5), std_gamma, geometric(0.3/0.7/1), negative binomial(p=1), "
+                "chi-squared, beta, normal, exponential, alias, loaded dice, terminate, initialize(other)} is followed by "
+                "initialize(seed), then every ordered pair of those samplers as the first two calls after the seed (so that every "
+                "sampler with cached parameters is met first with the same and with a different parameter than before the seed), "
+                "the next raw word, and a probe that calls every sampling function; all bit patterns must equal those on a thread "
+                "that never used the generator. (c) Two and three threads with different seeds "
                 "run the probe under a serialising scheduler with a scheduling point before every raw draw (hook H2); all interleavings "
                 "up to 2 preemptions; each thread's values must equal its solo values. (d) The same bodies run free under ThreadSanitizer.",
      level_note="Trusted: the reference generator in harness/c15_random.c, the scheduler (engine/vx_sched.c), ThreadSanitizer. "
@@ -782,9 +802,15 @@ def c16_jobs(tier):
                     crash_is_violation=True, recycle=20000)
     if tier == "quick":
         return [j("tables", mode="tables"), j("lattice-16", "rel", mode="lattice", lbits=16), j("seq-K2", mode="seq", K=2),
-                j("seq-K2-O2", "rel", mode="seq", K=2)]
+                j("seq-K2-O2", "rel", mode="seq", K=2), j("aliasvec-5", mode="aliasvec", maxn=5),
+                # the same under the floating-point trap mask that cimba_run_experiment() gives its worker threads
+                j("lattice-12-fptrap", "rel", mode="lattice", lbits=12, fptrap=1),
+                j("seq-K2-O2-fptrap", "rel", mode="seq", K=2, fptrap=1)]
     return [j("tables", mode="tables"), j("tables-O2", "rel", mode="tables"), j("lattice-20", "rel", mode="lattice", lbits=20),
-            j("seq-K3", "rel", mode="seq", K=3), j("seq-K2-asan", mode="seq", K=2)]
+            j("seq-K3", "rel", mode="seq", K=3), j("seq-K2-asan", mode="seq", K=2),
+            j("aliasvec-6", mode="aliasvec", maxn=6), j("aliasvec-6-fptrap", "rel", mode="aliasvec", maxn=6, fptrap=1),
+            j("lattice-16-fptrap", "rel", mode="lattice", lbits=16, fptrap=1),
+            j("seq-K3-fptrap", "rel", mode="seq", K=3, fptrap=1)]
 
 
 spec("C16", jobs=c16_jobs,
